@@ -293,6 +293,21 @@ def addObserver (ci : ClassInfo) (w : World) (u : Nat) : World × Option Err :=
     ({ w with heap := w.heap.setParent u (some w.gid), members := w.members ++ [u] }, none)
   else (w, some ci.addErr)
 
+/-- the constructor's loop `for observer in observers: self.add_observer(observer)` (`base.py:58-59`); an exception
+raised by `add_observer` ends the loop and leaves the adoptions made so far in place -/
+def addLoop (ci : ClassInfo) (w : World) : List Nat → World × Option Err
+  | [] => (w, none)
+  | u :: us =>
+    match addObserver ci w u with
+    | (w', none) => addLoop ci w' us
+    | (w', some e) => (w', some e)
+
+/-- `Cls(observers=us)` of the `Observer0DGroup` family (`base.py:54-59`, inherited through `super().__init__` by every
+subclass): `self._observers = tuple()` on the new node `g`, then the loop of `add_observer`.  `us = []` is also
+`observers=None`. -/
+def construct (ci : ClassInfo) (g : Nat) (h : Heap) (us : List Nat) : World × Option Err :=
+  addLoop ci ⟨g, h, []⟩ us
+
 inductive Key
   | int (i : Int)
   | slice (start stop step : Option Int)
